@@ -950,6 +950,10 @@ func (e *Eng) evalLoopClause(fr *Frame, li *loopInfo, c *Clause, bind map[*ssa.P
 }
 
 func (e *Eng) loopVar(fr *Frame, li *loopInfo, name string, bind map[*ssa.Phi]Val, st *State) Val {
+	marked := strings.HasPrefix(name, "\x00") // set by the rename fall-back below: do not fall back twice
+	if marked {
+		name = name[1:]
+	}
 	if name == "iter" && li.rangeIdx != nil {
 		return app("bvadd", bind[li.rangeIdx].(T), i64(1))
 	}
@@ -1025,6 +1029,55 @@ func (e *Eng) loopVar(fr *Frame, li *loopInfo, name string, bind map[*ssa.Phi]Va
 	for _, p := range e.fn.Params {
 		if p.Name() == name {
 			return fr.vals[p]
+		}
+	}
+	// the name is gone (a harmless rename?): if exactly one variable in scope of the loop has the type the loop
+	// clauses declare for it, take that one and record the substitution
+	if !marked {
+		var want types.Type
+		var cls []*Clause
+		cls = append(cls, li.spec.Invariants...)
+		if li.spec.Decreases != nil {
+			cls = append(cls, li.spec.Decreases)
+		}
+		for _, c := range cls {
+			if fn := e.w.specFn(c.SpecFn); fn != nil {
+				for _, p := range fn.Params {
+					if p.Name() == name {
+						want = p.Type()
+					}
+				}
+			}
+		}
+		if want != nil {
+			declared := map[string]bool{}
+			for _, vd := range li.spec.Vars {
+				declared[vd.Name] = true
+			}
+			cands := map[string]bool{}
+			for _, instr := range li.header.Instrs {
+				if phi, ok := instr.(*ssa.Phi); ok && phi.Comment != "" && types.Identical(phi.Type(), want) && !declared[phi.Comment] {
+					cands[phi.Comment] = true
+				}
+			}
+			for _, b := range e.fn.Blocks {
+				if !(b.Dominates(li.header)) && !li.body[b] {
+					continue
+				}
+				for _, in := range b.Instrs {
+					if dr, ok := in.(*ssa.DebugRef); ok && dr.Object() != nil && !dr.IsAddr {
+						if vo, isVar := dr.Object().(*types.Var); isVar && types.Identical(vo.Type(), want) && !declared[vo.Name()] && (b.Dominates(li.header) && b != li.header) {
+							cands[vo.Name()] = true
+						}
+					}
+				}
+			}
+			if len(cands) == 1 {
+				for other := range cands {
+					e.note(fmt.Sprintf("loop variable %q of loop %d of %s no longer exists; the only undeclared variable of type %s in scope, %q, was taken for it", name, li.ord, fnDisplayName(e.fn), types.TypeString(want, nil), other))
+					return e.loopVar(fr, li, "\x00"+other, bind, st)
+				}
+			}
 		}
 	}
 	panic(unsupportedErr{fmt.Sprintf("loop %d of %s: cannot resolve variable %q", li.ord, e.fn, name)})
@@ -1739,7 +1792,7 @@ func (e *Eng) returnSites(fr *Frame, st *State, ret *ssa.Return) {
 					continue
 				}
 			}
-			vars[vd.Name] = e.localAt(fr, st, ret, vd.Name)
+			vars[vd.Name] = e.localAtTyped(fr, st, ret, vd.Name, ss.Clause)
 		}
 		t := e.evalClause(ss.Clause, st, e.entry, nil, vars)
 		e.oblige(st, "assert", ss.Clause.Label, propsOf(ss.Clause, e), t, ret, fmt.Sprintf("assertion at return #%d: %s", ord, ss.Clause.Expr))
